@@ -706,7 +706,13 @@ class SchemaRejectsBounded:
         return f
 
 
-TARGETS = [ValidateReferences(), DuplicateIdentifiers(), TryReportErrors(), InitializeFunnel(), CycleCheck(),
+# "every component reference points to an existing component": which references ARE component references is decided by the
+# parser / classifier of C09 (trusted inside validate_references above): the same contracts are part of this check
+from pyvc.spec import shared as _shared
+import contracts.C09 as _c09
+REFERENCE_PARSING = [_shared(_c09.ParsePrint(), 'C11'), _shared(_c09.Classify(), 'C11'), _shared(_c09.NonComponentForms(), 'C11')]
+
+TARGETS = REFERENCE_PARSING + [ValidateReferences(), DuplicateIdentifiers(), TryReportErrors(), InitializeFunnel(), CycleCheck(),
            PropagateReplicateCycles(), ConcreteValidate(), ValidateComponent(), ValidateDocument()]
 LEMMAS = []
 BOUNDED = [SchemaRejectsBounded()]
